@@ -26,6 +26,11 @@
             forall|f: int, e: Event, m: PollMode| #[trigger] self.pl().may_modify(f, e, m) <==> (
                 f == crate::polling::fd_raw(&fd) && e == expected_event(interest, token) && m == spec_cvt_mode(mode, self.pl().spec_supports_level())),
 //@ endif
+//@ if poll_rereg_guarded
+        // (generic unit only: a may-call guard on the caller side -- an EXTRA obligation for callers of this signature-only
+        // copy, so that Generic::reregister has to justify every replacement; the proved contract has no such precondition)
+        requires self.pl().may_rereg(crate::polling::fd_raw(&fd)),
+//@ endif
         ensures
             r is Ok ==> self.pl().w_modified(crate::polling::fd_raw(&fd), expected_event(interest, token), spec_cvt_mode(mode, self.pl().spec_supports_level())),
 //@ enditem
